@@ -356,12 +356,9 @@ func flushRealOp(a []string) string {
 				stop = true
 			case <-time.After(2 * time.Millisecond):
 				if executor.VerifHaveWALWriter() {
-					// a real write: it queues a command and therefore a flush request whatever
-					// shortcuts RequestFlush may have
-					go func() {
-						defer func() { recover() }()
-						in.runStoreStep(flushRowStep(63))
-					}()
+					// wake the loop with a bare flush request (a real write would leave a command in the
+					// write channel after the loop's last flush and keep finishAndWait from returning)
+					go in.wf.RequestFlush()
 				}
 			}
 		}
